@@ -101,6 +101,12 @@ pub struct Scenario {
     /// process-wide cache warmed by the alone runs would otherwise hide first-use windows
     #[serde(default)]
     pub alone_first: bool,
+    /// when non-zero: the number of schedules is adapted to the job set's size. Four schedules are
+    /// run first; from their measured length the remaining number is chosen so that the whole job
+    /// set costs about this many scheduling steps (at least 6, at most 240 schedules): small jobs
+    /// get many interleavings, heavy ones few
+    #[serde(default)]
+    pub step_budget: u64,
 }
 
 fn scratch_dir() -> PathBuf {
@@ -835,6 +841,7 @@ fn gen_scenario(seed: u64) -> Scenario {
         sched: if r_cfg.chance(1, 2) { SchedKind::Random } else { SchedKind::Pct(r_cfg.range(1, 5) as usize) },
         sched_seed: r_cfg.next_u64(),
         iterations: 12,
+        step_budget: 6_000_000,
         // H4 (relocate-on-intern buggify) was removed together with the StringBackend: with the
         // bucket backend interned strings legitimately never move, so the fault would be illegal
         relocate: false,
@@ -850,6 +857,36 @@ fn emit(v: serde_json::Value) {
 }
 
 fn judge(sc: &Scenario, persist_dir: &str) -> serde_json::Value {
+    if sc.schedule.is_some() || sc.step_budget == 0 {
+        return judge_once(sc, persist_dir);
+    }
+    let mut p1 = sc.clone();
+    p1.step_budget = 0;
+    p1.iterations = sc.iterations.min(4);
+    let r1 = judge_once(&p1, persist_dir);
+    if r1["outcome"].is_object() {
+        return r1;
+    }
+    let steps = r1["counters"]["scheduling_steps"].as_u64().unwrap_or(0) / r1["counters"]["executions_completed"].as_u64().unwrap_or(1).max(1);
+    let total = (sc.step_budget / steps.max(1)).clamp(6, 240) as usize;
+    let mut p2 = sc.clone();
+    p2.step_budget = 0;
+    p2.iterations = total.saturating_sub(p1.iterations).max(1);
+    p2.sched_seed = sc.sched_seed ^ 0x9E37_79B9_7F4A_7C15;
+    let mut r2 = judge_once(&p2, persist_dir);
+    // counters of both phases
+    let keys: Vec<String> = r1["counters"].as_object().map(|m| m.keys().cloned().collect()).unwrap_or_default();
+    for k in keys {
+        if ["schedules", "scheduling_steps", "executions_completed"].contains(&k.as_str()) {
+            let a = r1["counters"][&k].as_u64().unwrap_or(0);
+            let b = r2["counters"][&k].as_u64().unwrap_or(0);
+            r2["counters"][&k] = json!(a + b);
+        }
+    }
+    r2
+}
+
+fn judge_once(sc: &Scenario, persist_dir: &str) -> serde_json::Value {
     for (name, content) in &sc.libs {
         let _ = std::fs::write(scratch_dir().join(name), content);
     }
